@@ -587,7 +587,7 @@ def r10_whole_rows(ctx, prog, fi, rule="C20-R10"):
                       "the column slice %s drops columns: the band is not "
                       "the corresponding rows of the image" %
                       norm(c), node=x)
-    ctx.floor(rule, n, 3, "row-block reads")
+    ctx.floor(rule, n, 1, "row-block reads")
     # NAXIS dispatch
     nd = 0
     for st in walk_no_nested(fi.node):
@@ -617,7 +617,8 @@ def r10_whole_rows(ctx, prog, fi, rule="C20-R10"):
                   (k, lead), lead == k - 2,
                   "an image with %d axes has %d axes in front of (rows, "
                   "columns); the branch uses %d" % (k, k - 2, lead), node=st)
-    ctx.floor(rule, nd, 3, "NAXIS branches")
+    # (a dispatch written differently -- a table, a computed number of
+    # leading axes -- is covered by the plane rule R5 alone)
 
 
 def r5_planes(ctx, prog, rule="C20-R5"):
